@@ -1,8 +1,9 @@
 """C02 -- message framing is independent of how the byte stream is segmented.
 
 Both receivers are the real ones: of_01.Connection on a fake socket (one recv(2048) per read()) with its
-handler table replaced by recorders, and datapaths.switch.OFConnection on a real IOWorker fed through
-_push_receive_data, with set_message_handler(recorder).
+handler table replaced by recorders, and datapaths.switch.OFConnection on a real IOWorker with
+set_message_handler(recorder), fed either through _push_receive_data or (via="recv") through the real
+IOWorker._do_recv reading a non-blocking fake socket once per select wake-up.
 
 Oracle (exact, per read): the stream is framed independently by pvf.ref.of10_bytes.split (declared lengths);
 after every single read exactly the messages wholly contained in the bytes received so far have been
@@ -32,21 +33,28 @@ LEVEL_TEXT = ("Exploration by generated-input search over (message sequence x se
 LEVEL_NOTE = ("trusts the byte-level builder pvf/ref/of10_bytes.py (written from openflow.h 1.0.0) to produce well-formed messages; "
               "message *content* equality is judged against POX's own decoder applied to the single message (codec correctness is C01)")
 RULE = ("a case is (side, list of message specs built by the independent byte builder, optional truncated tail, cut positions); "
-        "non-trivial when the stream has >= 2 messages and >= 1 cut lies strictly inside a message; "
+        "for the switch side also whether segments are pushed into the IOWorker or read by IOWorker._do_recv from a non-blocking socket; "
+        "non-trivial when the stream has >= 2 messages and either >= 1 cut lies strictly inside a message, or a truncated tail is held, "
+        "or a single read makes more than 32 messages complete at once; "
         "distinct by SHA-1 of the canonical JSON of the case")
 ASSUMPTIONS = [
   "messages are well-formed OpenFlow 1.0 messages of the direction the receiver handles (switch->controller types for "
   "of_01.Connection, controller->switch types for OFConnection), version 1 (a HELLO may carry a higher version and a body)",
   "a well-formed message that POX's decoder itself cannot decode when handed exactly its bytes (a codec defect, property C01) "
   "is outside this property's domain: such cases are counted under 'skipped:undecodable' and not judged",
+  "a non-blocking socket returns what is pending capped at the requested size, raises EAGAIN when nothing is pending and returns "
+  "b'' only at EOF; the select loop calls the reader once per wake-up while the socket is readable",
   "the controller socket returns at most 2048 bytes per recv and the IO loop hands at most 8192 bytes per _push_receive_data, "
   "as the real callers do",
 ]
 EXHAUSTIVE_SCOPE = {
-  "quick": "catalogue of 11 controller-side and 10 switch-side streams: every 1-cut position for streams <= 3000 bytes; for larger "
+  "quick": "catalogue of 11 controller-side and 11 switch-side streams (the switch side both pushed into the IOWorker and read through "
+           "IOWorker._do_recv from a non-blocking fake socket): every 1-cut position for streams <= 3000 bytes; for larger "
            "streams the cut positions within 9 bytes of a message boundary, within 2 of a multiple of 2048/8192 and every 89th offset; "
            "every 2-cut for streams <= 140 bytes, and all pairs of header-relative positions for the others; dribble with chunk sizes "
-           "1,2,3,5,7,8,9,2047,2048,2049,8191,8192,8193; every truncation length of a trailing message (held, then completed)",
+           "1,2,3,5,7,8,9,2047,2048,2049,8191,8192,8193,16383,16384,16385; every truncation length of a trailing message (held, then "
+           "completed); bursts of 2,31,32,33,34,40,64,65,100,255,256,257,300,1000,1024,1025 small messages x 3 type mixes delivered "
+           "as one segment, in 2 and 3 large segments, in segments of exactly 2048/4096/8192/16384 bytes, and followed by a held tail",
   "thorough": "as quick, every 2-cut for streams <= 420 bytes, every 1-cut of every catalogue stream",
 }
 
@@ -215,6 +223,38 @@ class SwRx(object):
     return bytes(self.worker.receive_buf)
 
 
+class _StubLoop(object):
+  """What IOWorker._do_recv needs of its loop: the read size and the worker set."""
+
+  def __init__(self, worker):
+    import pox.lib.ioworker as IOW
+    self._BUF_SIZE = IOW.RecocoIOLoop._BUF_SIZE
+    self._workers = set([worker])
+
+
+class SwIoRx(SwRx):
+  """As SwRx, but the bytes take the whole switch-side read path: a non-blocking fake socket (recv returns what
+  is pending, capped at the requested size; EAGAIN when nothing is pending; b'' only on EOF) is read by the
+  real IOWorker._do_recv, once per select wake-up while the socket is readable."""
+  side = "sw"
+
+  def __init__(self):
+    SwRx.__init__(self)
+    self.loop = _StubLoop(self.worker)
+
+  def push(self, seg, after):
+    self.sock.feed(seg)
+    while self.sock.inbox:
+      before = len(self.sock.inbox)
+      self.worker._do_recv(self.loop)
+      self.received += before - len(self.sock.inbox)
+      if self.worker.closed or self.worker.shutdown_calls or self.worker not in self.loop._workers:
+        self.closed = True
+      after()
+      if self.closed:
+        return
+
+
 # --------------------------------------------------------------------------- the case
 
 def stream_of(case):
@@ -304,14 +344,21 @@ def run_case(case):
   out.nontrivial = (len(msgs) + (1 if tail_msg else 0)) >= 2 and (inside >= 1 or bool(case.get("tail")))
 
   # ---- run
-  rx = CtlRx() if side == "ctl" else SwRx()
-  state = {"bad": False}
+  via = case.get("via", "push")
+  if via not in ("push", "recv") or (via == "recv" and side != "sw"):
+    raise HarnessError("via=%r is only defined for the switch side" % (via,))
+  rx = CtlRx() if side == "ctl" else SwIoRx() if via == "recv" else SwRx()
+  if side == "sw":
+    out.label("via:" + via)
+  state = {"bad": False, "k": 0, "burst": 0}
 
   def after():
     if state["bad"]:
       return
     got = rx.received
     k = bisect.bisect_right(ends, got)
+    state["burst"] = max(state["burst"], k - state["k"])
+    state["k"] = k
     nd = len(rx.delivered)
     if rx.closed:
       out.fail("closed", "the connection was closed/refused by the receiver after %d bytes of a well-formed stream" % got, side=side)
@@ -345,6 +392,10 @@ def run_case(case):
     out.violations.append({"key": exc_key(e, clause="read-raises", side=side),
                            "msg": "reading a well-formed stream raised %r" % (e,)})
     return out
+  b = state["burst"]
+  out.label("burst:%s" % ("0-1" if b < 2 else "2-32" if b <= 32 else "33-256" if b <= 256 else "257+"))
+  if b > 32 and len(msgs) >= 2:
+    out.nontrivial = True
   if state["bad"]:
     return out
   if rx.received != len(full):
@@ -418,6 +469,8 @@ def catalogue(side):
     ("big1", [_s(T.ECHO_REQUEST, 1), _s(T.PACKET_OUT, 2100, 1), _s(T.HELLO), _s(T.FLOW_MOD, 400, 3), _s(T.BARRIER_REQUEST)]),
     ("big2", [_s(T.FLOW_MOD, 900, 1), _s(T.ECHO_REPLY), _s(T.PACKET_OUT, 9000, 2), _s(T.HELLO)]),
     ("max", [_s(T.PACKET_OUT, 65500, 1), _s(T.HELLO), _s(T.ECHO_REQUEST, 65527, 2)]),
+    # messages ending exactly on multiples of the 8192-byte read size: 8192, 8192+8192, then small ones
+    ("x8192", [_s(T.ECHO_REQUEST, 8184, 1), _s(T.VENDOR, 8180, 2), _s(T.HELLO), _s(T.BARRIER_REQUEST)]),
   ]
 
 
@@ -442,7 +495,7 @@ def _special_offsets(lens, total):
 
 
 def enum_cut1(tier):
-  for side in ("ctl", "sw"):
+  for side, extra in _sides():
     for name, specs in catalogue(side):
       lens = _lens(specs)
       total = sum(lens)
@@ -451,13 +504,15 @@ def enum_cut1(tier):
       else:
         cuts = sorted(set(_special_offsets(lens, total)) | set(range(89, total, 89)))
       for c in cuts:
-        yield {"side": side, "msgs": specs, "cuts": [c]}
+        yield dict(extra, side=side, msgs=specs, cuts=[c])
 
 
 def enum_cut2(tier):
   bound = 140 if tier == "quick" else 420
-  for side in ("ctl", "sw"):
+  for side, extra in _sides():
     for name, specs in catalogue(side):
+      if extra and sum(_lens(specs)) > bound and tier == "quick":
+        continue                       # the recv path repeats the exhaustive 2-cuts of the short streams only
       lens = _lens(specs)
       total = sum(lens)
       if total <= bound:
@@ -474,14 +529,64 @@ def enum_cut2(tier):
             p += l
           pos = [x for x in pos if x in near or x % 2048 in (0, 1, 2047) or x % 8192 in (0, 1, 8191)]
       for a, b in itertools.combinations(pos, 2):
-        yield {"side": side, "msgs": specs, "cuts": [a, b]}
+        yield dict(extra, side=side, msgs=specs, cuts=[a, b])
 
 
-_CHUNKS = [1, 2, 3, 5, 7, 8, 9, 2047, 2048, 2049, 8191, 8192, 8193]
+_CHUNKS = [1, 2, 3, 5, 7, 8, 9, 2047, 2048, 2049, 8191, 8192, 8193, 16383, 16384, 16385]
+
+
+def _sides():
+  """(side, extra case fields): the switch side is exercised both by pushing segments into the IOWorker and
+  through IOWorker._do_recv on a non-blocking socket."""
+  return [("ctl", {}), ("sw", {}), ("sw", {"via": "recv"})]
+
+
+def burst_specs(side, count, variant):
+  """`count` small messages (8..64 bytes) of mixed types with distinct xids."""
+  T = R
+  if side == "ctl":
+    pool = [_s(T.ECHO_REQUEST, 0), _s(T.HELLO), _s(T.BARRIER_REPLY), _s(T.PORT_STATUS, f=1), _s(T.ECHO_REPLY, 3, 1),
+            _s(T.GET_CONFIG_REPLY, f=1), _s(T.PACKET_IN, 6, 1)]
+  else:
+    pool = [_s(T.ECHO_REQUEST, 0), _s(T.HELLO), _s(T.BARRIER_REQUEST), _s(T.PORT_MOD, f=1), _s(T.ECHO_REPLY, 3, 1),
+            _s(T.SET_CONFIG, f=1), _s(T.FEATURES_REQUEST)]
+  if variant == 0:
+    pool = pool[:1]                 # all 8-byte echo requests
+  elif variant == 1:
+    pool = pool[:3]                 # 8-byte messages of three types
+  out = []
+  for i in range(count):
+    d = dict(pool[i % len(pool)])
+    d["xid"] = i + 1
+    out.append(d)
+  return out
+
+
+_BURSTS = [2, 31, 32, 33, 34, 40, 64, 65, 100, 255, 256, 257, 300, 1000, 1024, 1025]
+
+
+def enum_bursts(tier):
+  """Many small messages becoming complete in one read: the whole stream as one segment, in two and three
+  large segments, and in segments of exactly the read sizes."""
+  for side, extra in _sides():
+    for count in _BURSTS:
+      for variant in (0, 1, 2):
+        specs = burst_specs(side, count, variant)
+        total = sum(_lens(specs))
+        base = dict(extra, side=side, msgs=specs)
+        yield dict(base, cuts=[])
+        for parts in (2, 3):
+          yield dict(base, cuts=[total * i // parts for i in range(1, parts)])
+          yield dict(base, cuts=[total * i // parts + 3 for i in range(1, parts)])
+        for ch in (2048, 4096, 8192, 16384):
+          if ch < total:
+            yield dict(base, chunk=ch)
+        # a burst followed by a held tail
+        yield dict(base, cuts=[], tail={"spec": specs[0], "keep": 5, "complete": True})
 
 
 def enum_dribble(tier):
-  for side in ("ctl", "sw"):
+  for side, extra in _sides():
     for name, specs in catalogue(side):
       total = sum(_lens(specs))
       for ch in _CHUNKS:
@@ -489,13 +594,13 @@ def enum_dribble(tier):
           continue
         if ch < 5 and total > 30000 and tier == "quick":
           continue                       # 1-byte dribble of 130 kB: thorough only
-        yield {"side": side, "msgs": specs, "chunk": ch}
+        yield dict(extra, side=side, msgs=specs, chunk=ch)
 
 
 def enum_tail(tier):
   """A trailing message truncated at every length: held (never delivered, buffered intact), and delivered
   exactly once when the rest arrives."""
-  for side in ("ctl", "sw"):
+  for side, extra in _sides():
     cat = catalogue(side)
     for name, specs in cat[:4]:
       head = specs[:2]
@@ -503,13 +608,13 @@ def enum_tail(tier):
         tl = len(R.build(tspec).data)
         for keep in range(1, tl):
           for complete in (False, True):
-            yield {"side": side, "msgs": head, "tail": {"spec": tspec, "keep": keep, "complete": complete}, "cuts": []}
+            yield dict(extra, side=side, msgs=head, tail={"spec": tspec, "keep": keep, "complete": complete}, cuts=[])
     # a large tail crossing the read size
     big = _s(R.PACKET_IN, 5000, 1) if side == "ctl" else _s(R.PACKET_OUT, 9000, 1)
     tl = len(R.build(big).data)
     for keep in sorted(set([1, 3, 4, 7, 8, 9, 2047, 2048, 2049, 4096, tl - 1] + ([8191, 8192, 8193] if tl > 8200 else []))):
       for complete in (False, True):
-        yield {"side": side, "msgs": cat[0][1][:2], "tail": {"spec": big, "keep": keep, "complete": complete}, "cuts": [5]}
+        yield dict(extra, side=side, msgs=cat[0][1][:2], tail={"spec": big, "keep": keep, "complete": complete}, cuts=[5])
 
 
 # --------------------------------------------------------------------------- Hypothesis
@@ -556,12 +661,20 @@ def spec_strategy(draw, side, small=False):
 @st.composite
 def case_strategy(draw, tier):
   side = draw(st.sampled_from(["ctl", "sw"]))
-  nm = draw(st.integers(1, 8))
-  heavy = draw(st.integers(0, 3)) == 0           # allow large messages in a quarter of the cases
-  msgs = [draw(spec_strategy(side, small=not heavy and i > 0)) for i in range(nm)]
+  many = draw(st.integers(0, 7)) == 0            # an eighth of the cases: a burst of many small messages
+  if many:
+    count = draw(st.one_of(st.integers(30, 70), st.integers(9, 400)))
+    msgs = burst_specs(side, count, draw(st.integers(0, 2)))
+    nm = len(msgs)
+  else:
+    nm = draw(st.integers(1, 8))
+    heavy = draw(st.integers(0, 3)) == 0         # allow large messages in a quarter of the cases
+    msgs = [draw(spec_strategy(side, small=not heavy and i > 0)) for i in range(nm)]
   lens = [len(R.build(s).data) for s in msgs]
   total = sum(lens)
   case = {"side": side, "msgs": msgs}
+  if side == "sw" and draw(st.booleans()):
+    case["via"] = "recv"
   if draw(st.integers(0, 3)) == 0:
     tspec = draw(spec_strategy(side, small=draw(st.booleans())))
     tl = len(R.build(tspec).data)
@@ -586,7 +699,7 @@ def case_strategy(draw, tier):
       c = draw(st.integers(1, max(1, total - 1)))
     else:
       unit = draw(st.sampled_from([2048, 8192]))
-      c = unit * draw(st.integers(1, max(1, total // unit))) + draw(st.integers(-2, 2))
+      c = unit * draw(st.integers(1, max(1, total // unit))) + draw(st.sampled_from([-2, -1, 0, 0, 0, 1, 2]))
     if 0 < c < total:
       cuts.add(c)
   case["cuts"] = sorted(cuts)
@@ -600,5 +713,6 @@ def plan(tier):
     Enum("cut2", lambda: enum_cut2(tier), shards=16),
     Enum("dribble", lambda: enum_dribble(tier), shards=16),
     Enum("tail", lambda: enum_tail(tier), shards=16),
+    Enum("bursts", lambda: enum_bursts(tier), shards=16),
     Hyp("kcuts", lambda: case_strategy(tier), examples=n, shards=16),
   ]
